@@ -66,7 +66,11 @@ Reset ==
   /\ E.ev = "reset"
   /\ store' = E.store
   /\ mx' = [k \in {j \in DOMAIN E.store : E.store[j][3]} |-> E.store[k][2]]
-  /\ pend' = <<>> /\ done' = <<>>
+  /\ pend' = <<>>
+  \* subscriptions made before the explored part of the run count as watch commands at time 0
+  /\ done' = [i \in 1..Len(E.initwat) |->
+                [t |-> E.initwat[i][1], op |-> "watch", k |-> E.initwat[i][2], v |-> "", eff |-> FALSE,
+                 cv |-> "", callat |-> 0, linat |-> 0, retat |-> 0, cls |-> "ok"]]
   /\ strategy' = E.strategy
   /\ used' = {}
   /\ ((used # {}) => PrintT(<<"USED", Rec[l-1].run, used>>))
@@ -111,15 +115,17 @@ LinWriteNone(p, W, res) ==
   \/ /\ MayRefuse(p.k, p.ver) /\ ~Live(store, p.k) /\ Applied(p, W)   \* removed key: lenient
      /\ res = [cls |-> "ok", rv |-> "", eff |-> TRUE, cv |-> p.v]
 
-(* newer strategy: never refused; takes effect, or is superseded (nothing changes) *)
+(* newer strategy: never refused; takes effect, or is superseded (nothing changes).  It  *)
+(* may be superseded only by a change to the same key that is at least as recent: one   *)
+(* that had not yet returned when this one was called (concurrent or later).            *)
 LinWriteNewer(p, W, res) ==
   \/ /\ Applied(p, W)
      /\ res = [cls |-> "ok", rv |-> "", eff |-> TRUE, cv |-> p.v]
   \/ /\ Same(store, W)
-     /\ \E i \in DOMAIN done : done[i].k = p.k /\ done[i].eff /\ done[i].callat > p.callat
+     /\ \E i \in DOMAIN done : done[i].k = p.k /\ done[i].eff /\ done[i].retat > p.callat
      /\ res = [cls |-> "ok", rv |-> "", eff |-> FALSE, cv |-> ""]
   \/ /\ Same(store, W)
-     /\ \E t \in DOMAIN pend : pend[t].k = p.k /\ pend[t].lin /\ pend[t].eff /\ pend[t].callat > p.callat
+     /\ \E t \in DOMAIN pend : pend[t].k = p.k /\ pend[t].lin /\ pend[t].eff /\ pend[t].callat # p.callat
      /\ res = [cls |-> "ok", rv |-> "", eff |-> FALSE, cv |-> ""]
 
 LinIncrement(p, W, res) ==
@@ -239,7 +245,8 @@ May(s, m)  == \E w \in Watches(s, m.k) :
                  w.callat < m.retat /\ m.callat < FirstUnsubRet(s, m.k, w.retat)
 
 Changes == {m \in Ops : m.op \in {"set", "set-safe", "increment", "replicate"} /\ m.eff}
-Removes == {m \in Ops : m.op = "remove" /\ m.eff /\ Success(m.cls)}
+(* every accepted remove tells the subscribers, also when the key was already gone *)
+Removes == {m \in Ops : m.op = "remove" /\ Success(m.cls)}
 
 NotesOf(s) == IF s \in DOMAIN E.inbox THEN E.inbox[s] ELSE <<>>
 CountNotes(s, typ, k, v) ==
